@@ -76,12 +76,22 @@ def xcall(f, *a, **k):
     except Timeout:
         raise
     except RecursionError:
-        return ('exc', ('RecursionError', False, ''))
+        return ('exc', ('RecursionError', False, '', ''))
     except Exception as e:
         name = type(e).__name__
         msg = str(e)[:240]
         link = isinstance(e, (NameError, AttributeError)) or (isinstance(e, TypeError) and bool(ARITY_MSG.search(msg)))
-        return ('exc', (name, bool(link), msg))
+        origin = ''
+        tb = e.__traceback__
+        while tb is not None:                      # the innermost frame that belongs to the package
+            fn_ = tb.tb_frame.f_code.co_filename
+            if (os.sep + 'kneeliverse' + os.sep) in fn_:
+                origin = '%s.%s' % (os.path.basename(fn_)[:-3], tb.tb_frame.f_code.co_name)
+                msg_line = tb.tb_lineno
+            tb = tb.tb_next
+        if origin:
+            msg += ' [raised in %s, line %d]' % (origin, msg_line)
+        return ('exc', (name, bool(link), msg, origin))
 
 
 def poison(rnd, extra=()):
@@ -96,6 +106,48 @@ def poison(rnd, extra=()):
             a.fill(fills[(rnd + rep + k) % 5])
             keep.append(a)
     del keep
+
+
+class empty_garbage:
+    """pass-through wrappers around numpy.empty / numpy.empty_like for the duration of one call: the array is returned filled with
+    garbage that differs from round to round (np.empty promises nothing about the contents, so this is a legal numpy; a result that
+    changes with it reads uninitialised memory).  Allocator reuse alone is not reliable: the last block freed by the function itself is
+    what np.empty usually gets back, and that is the same in every call."""
+    FILLS = [1e300, -1e300, float('nan'), 0.5, -7.25e18, 3.0e9 + 0.5, 2.0 ** -1040, -0.0]
+
+    def __init__(self, rnd):
+        self.rnd = rnd
+
+    def __enter__(self):
+        import numpy as np
+        self.np = np
+        self.orig = (np.empty, np.empty_like)
+        rnd, fills, orig = self.rnd, self.FILLS, self.orig
+
+        def fill(a):
+            try:
+                if a.dtype.kind == 'f':
+                    a.fill(fills[rnd % len(fills)])
+                elif a.dtype.kind in 'iu':
+                    a.fill([2 ** 62 - 1, -(2 ** 61), 123456789, -1, 7][rnd % 5] if a.dtype.itemsize == 8 else [127, -128, 85, -1, 7][rnd % 5])
+                elif a.dtype.kind == 'b':
+                    a.fill(rnd % 2 == 0)
+            except Exception:
+                pass
+            return a
+
+        def empty(*a, **k):
+            return fill(orig[0](*a, **k))
+
+        def empty_like(*a, **k):
+            return fill(orig[1](*a, **k))
+
+        np.empty, np.empty_like = empty, empty_like
+        return self
+
+    def __exit__(self, *exc):
+        self.np.empty, self.np.empty_like = self.orig
+        return False
 
 
 def in_child(fn):
@@ -153,13 +205,30 @@ ENUMS = {'dist': ['shortest', 'perpendicular'], 'distfn': ['shortest_distance_po
          'cd': ['Increasing', 'Decreasing'], 'cc': ['Counterclockwise', 'Clockwise'], 'outlier': ['zscore', 'iqr', 'hampel'],
          'detector': ['curvature', 'dfdt', 'menger', 'lmethod', 'kneedle'], 'sorted': [True, False], 'vertical': [False, True],
          'extremes': [False, True], 'plot': [False, True]}
-# falsy / boundary values of the numeric parameters (dz = 0 never terminates by construction of the z-method loop: outside the domain)
+# falsy / boundary values of the numeric parameters (dz = 0 and t2 < 2 never terminate by construction of the z-method / multi-knee
+# loops on the unchanged tree: outside the domain)
 BOUNDARY = {'t': [0.0, 1.0, 0], 'tcm': [0.0, 1.0], 'tr2': [0.0, 1.0], 'tcl': [0.0, 1.0], 'tiou': [0.0, 1.0], 'tx': [1.0, 0.5, 1], 'ty': [0.0, 1.0],
             'dx': [0.0, 1.0], 'dy': [0.0, 1.0], 'dz': [1.0, 3.0], 't1': [0.0, 1.0], 'tk': [0, 0.0, 1], 'sens': [0.0, 1, 0], 'k': [0, 1, 2],
-            't2': [0, 1, 2], 'limit': [0, 1, 2], 'tlist': [[], [0.0], [1.0, 0.0]], 'index': [1], 'b': [0]}
+            't2': [2, 3], 'limit': [0, 1, 2], 'tlist': [[], [0.0], [1.0, 0.0]], 'index': [1], 'b': [0]}
 SIBLING_NUM = {'t': 0.07, 'tcm': 0.2, 'tr2': 0.7, 'tcl': 0.3, 'tiou': 0.2, 'tx': 0.15, 'ty': 0.15, 'dx': 0.15, 'dy': 0.2, 'dz': 0.4, 't1': 0.05, 'tk': 0.7,
                'sens': 1.5, 'k': 4, 't2': 4, 'limit': 7, 'tlist': [0.05, 0.5]}
 _USED = {}
+_COMBOS = {}
+
+
+def combo_list(fn):
+    """every combination of the Enum / flag options a call form reads, ordered so that the first max(len) entries already show every
+    single option (the diagonal), the rest follow in mixed-radix order"""
+    if fn not in _COMBOS:
+        import itertools
+        keys = sorted(k for k in used_keys(fn) if k in ENUMS)
+        if not keys:
+            _COMBOS[fn] = []
+        else:
+            diag = [tuple(ENUMS[k][i % len(ENUMS[k])] for k in keys) for i in range(max(len(ENUMS[k]) for k in keys))]
+            rest = [t for t in itertools.product(*[ENUMS[k] for k in keys]) if t not in set(diag)]
+            _COMBOS[fn] = [dict(zip(keys, t)) for t in diag + rest]
+    return _COMBOS[fn]
 
 
 def used_keys(fn):
@@ -521,6 +590,23 @@ def chord_hug(rng, n=None):
     return 'chordhug-' + shape, [[float(a), float(b)] for a, b in zip(xs_, ys_)]
 
 
+def bumpy_convex(rng, n):
+    """a smooth convex decreasing curve with a few points lifted off its lower hull (and a few pushed below it): neighbouring points
+    differ in whether they are hull points / corners, which is what hull rankings, corner filters and cluster representatives decide on"""
+    integer = rng.random() < 0.5
+    a = rng.choice([40.0, 100.0, 250.0])
+    xs_ = [float(i) for i in range(n)]
+    ys_ = [a / (x + 1.0) for x in xs_]
+    dens = rng.choice([0.15, 0.4, 0.6])
+    base = list(ys_)
+    for i in range(1, n - 1):
+        if rng.random() < dens:
+            ys_[i] += rng.choice([1.0, 3.0, 3.0, -0.5]) * (base[i - 1] - base[i + 1]) * rng.choice([0.25, 0.5])
+    if integer:
+        ys_ = [float(round(y * 4)) for y in ys_]
+    return 'bumps', [[x, max(0.0, y)] for x, y in zip(xs_, ys_)]
+
+
 def dyn_case(rng, fn, tier, n=None, family=None, j=None, stream='general'):
     big = tier == 'thorough'
     if n is None:
@@ -530,6 +616,8 @@ def dyn_case(rng, fn, tier, n=None, family=None, j=None, stream='general'):
     if family == 'chordhug':
         fam, pts = chord_hug(rng, n)
         n = len(pts)
+    elif family == 'bumps' or (family is None and rng.random() < 0.2):
+        fam, pts = bumpy_convex(rng, n)
     elif family is not None:
         fam, pts = gen.curve(rng, n, family)
     elif rng.random() < 0.55:
@@ -546,7 +634,15 @@ def dyn_case(rng, fn, tier, n=None, family=None, j=None, stream='general'):
         fam, pts = gen.curve(rng, n, rng.choice(['convex', 'uniform', 'collinear', 'elbow', 'scaled', 'grid']))
     integer = all(float(v).is_integer() for p in pts for v in p)
     interior = list(range(1, n - 1))
-    knees = sorted(rng.sample(interior, rng.randint(1, min(5, len(interior)))))
+    if rng.random() < 0.5 and len(interior) >= 4:
+        # knees in runs of neighbouring indices: clusters that hold several knees, corners next to each other
+        knees = set()
+        for _ in range(rng.randint(1, 3)):
+            st = rng.choice(interior)
+            knees.update(k_ for k_ in range(st, st + rng.randint(2, 5)) if k_ <= n - 2)
+        knees = sorted(knees)
+    else:
+        knees = sorted(rng.sample(interior, rng.randint(1, min(5, len(interior)))))
     red = gen.random_subset_with_ends(rng, n)
     red3 = red if len(red) >= 3 else [0, rng.choice(interior), n - 1]
     rk = sorted(rng.sample(range(len(red)), rng.randint(1, len(red))))
@@ -595,13 +691,21 @@ def dyn_case(rng, fn, tier, n=None, family=None, j=None, stream='general'):
          'lcost': rng.choice(['rss', 'rmse']), 'tk': rng.choice([1.0, 0.5, 0.1]), 'sens': rng.choice([1.0, 0.5, 2.0]),
          'pd': rng.choice(['Kneedle', 'ZScore', 'Significant', 'All']), 'cd': rng.choice(['Increasing', 'Decreasing']),
          'cc': rng.choice(['Counterclockwise', 'Clockwise']), 'detector': rng.choice(['curvature', 'dfdt', 'menger', 'lmethod', 'kneedle'])}
+    # thresholds drawn from the values the primitives take on THIS input: the clustering threshold separates two observed knee gaps
+    if len(knees) >= 3 and rng.random() < 0.6:
+        span = pts[knees[-1]][0] - pts[knees[0]][0]
+        gaps = sorted(set((pts[knees[i + 1]][0] - pts[knees[i]][0]) / span for i in range(len(knees) - 1))) if span > 0 else []
+        if len(gaps) >= 2:
+            i_ = rng.randrange(len(gaps) - 1)
+            c['tcl'] = (gaps[i_] + gaps[i_ + 1]) / 2.0
+        elif gaps:
+            c['tcl'] = gaps[0] * rng.choice([0.5, 1.0, 1.5])
     c['stream'] = stream
     if j is not None:
         # enumerate, do not sample: the j-th case of a call form takes the j-th combination of the Enum / flag options it reads
-        used = sorted(k for k in used_keys(fn) if k in ENUMS)
-        for pos, key in enumerate(used):
-            opts = ENUMS[key]
-            c[key] = opts[(j + (j // len(opts)) * (pos + 1)) % len(opts)]
+        combos = combo_list(fn)
+        if combos:
+            c.update(combos[j % len(combos)])
     if stream == 'boundary':
         jj = j or 0
         for pos, key in enumerate(sorted(k for k in used_keys(fn) if k in BOUNDARY)):
@@ -614,18 +718,24 @@ def dyn_case(rng, fn, tier, n=None, family=None, j=None, stream='general'):
     return c
 
 
+BIG_SCALES = [(2 ** 33, 1, 0, 0), (2 ** 35, 2 ** 20, 0, 0), (1, 2 ** 35, 0, 0), (1, 1, 2 ** 40, 2 ** 39), (2 ** 31 + 1, 3, 7, 2 ** 36)]
+
+
 def big_ints(rng, c):
     """integer-valued coordinates with magnitudes up to 2^41 (exact in float64): gaps above 3e9 make int32-style and squared int64
     intermediates wrap, offsets near 2^40 expose loss of integer precision"""
-    sx, sy, x0, y0 = rng.choice([(2 ** 33, 1, 0, 0), (2 ** 35, 2 ** 20, 0, 0), (2 ** 32, 2 ** 33, 0, 0), (1, 2 ** 35, 0, 0), (1, 1, 2 ** 40, 2 ** 39),
-                                 (2 ** 34, 2 ** 34, 2 ** 38, 0), (2 ** 31 + 1, 3, 7, 2 ** 36)])
+    # (x and y gaps are not BOTH large: a product of two coordinate gaps above 2^63 wraps in int64 by the nature of the dtype)
+    sx, sy, x0, y0 = rng.choice(BIG_SCALES)
+    # not powers of two: squares of multiples of 2^33 wrap to exactly 0 in int64, which hides the wrap-around
+    if sx > 1:
+        sx = rng.randrange(3 * 10 ** 9, 2 ** 35) | 1
+    if sy > 2 ** 30:
+        sy = rng.randrange(3 * 10 ** 9, 2 ** 35) | 1
     tr = lambda p: [float(int(p[0]) * sx + x0), float(int(p[1]) * sy + y0)]   # noqa
     pts = [tr(p) for p in c['points']]
     c['points'] = pts
     # expected: the knee points themselves (perfect detection), sometimes one more curve point
     exp = [list(pts[k]) for k in c['knees']]
-    if rng.random() < 0.4:
-        exp.append(list(pts[rng.randrange(len(pts))]))
     rng.shuffle(exp)
     c['expected'] = exp
     c['rects'] = [[float(int(v) * sx) for v in r] for r in c['rects']]
@@ -661,7 +771,15 @@ def truncate(c, m):
     return d
 
 
-BIGINT_OVERFLOW_IN_BASELINE = set()
+# Call forms on which the UNCHANGED library itself gives different answers for int64 and float64 inputs once coordinate gaps exceed
+# ~3e9 (measured on /repo, see reports/C20.md): int64 wrap-around in np.power(points - point, 2) (knee_ranking.distances), in the
+# third-party uts.gradient.cfd/csd that curvature / dfdt / zmethod call on the caller's integer arrays, in the x-on-y fit of
+# linear_hv_residuals / linear_fit_transform(vertical=True); the z-method loop also runs for minutes at these magnitudes.  They are
+# reported as a finding class, not re-detected on every run: the big-magnitude stream leaves these forms out.
+BIGINT_OVERFLOW_IN_BASELINE = {'curvature.knee', 'curvature.multi_knee', 'dfdt.get_knee', 'dfdt.knee', 'dfdt.multi_knee', 'dfdt.get_knee_gradient',
+                               'knee_ranking.distances', 'linear_fit.linear_fit_transform', 'linear_fit.linear_fit_transform_points',
+                               'linear_fit.linear_hv_residuals', 'linear_fit.linear_hv_residuals_points', 'multi_knee.multi_knee',
+                               'zmethod.getPoints', 'zmethod.knees', 'zmethod.knees/range', 'zmethod.knees2', 'zmethod.map_index'}
 
 
 def one_run(c, tag, rnd, build_case=None, reuse=None):
@@ -680,7 +798,8 @@ def one_run(c, tag, rnd, build_case=None, reuse=None):
     dsnap = defaults_of(f)
     n = len(c['points'])
     poison(rnd, [n - 1, n, n + 1, 2 * n, 3 * n, len(c['knees']), len(c['knees']) + 1, len(c['reduced']), len(c['expected'])] + list(range(1, 1 + len(c['knees']))))
-    st, val = xcall(f, *a, **kw)
+    with empty_garbage(rnd):
+        st, val = xcall(f, *a, **kw)
     unchanged = V.unchanged() and defaults_same(f, dsnap)
     out = []
     exc = None
@@ -690,6 +809,8 @@ def one_run(c, tag, rnd, build_case=None, reuse=None):
         out += [7, 1 if val[1] else 0]
         enc(val[0], out)
         exc = '%s: %s' % (val[0], val[2])
+        if val[1] and val[3]:
+            exc = '@%s:%s@ ' % (val[3], val[0]) + exc
     return [tag, bool(unchanged), out, exc]
 
 
@@ -765,7 +886,8 @@ def run_interference(c):
     V0.snapshot()
     dsnap = defaults_of(f)
     poison(6, [len(c['points']), len(c['knees'])])
-    st, val = xcall(f, *a0, **kw0)
+    with empty_garbage(6):
+        st, val = xcall(f, *a0, **kw0)
     r6 = _entry(6, V0.unchanged() and defaults_same(f, dsnap), st, val)
     # (5) same objects, refilled in place
     Vr = Variant(0, False)
@@ -782,7 +904,8 @@ def run_interference(c):
             target.append(None)
     ac, kwc = substitute(Vc, ac, kwc, target)
     poison(7, [len(c['points'])])
-    st, val = xcall(fc, *ac, **kwc)
+    with empty_garbage(7):
+        st, val = xcall(fc, *ac, **kwc)
     r7 = _entry(7, True, st, val)
     return [r6, r7]
 
@@ -796,6 +919,8 @@ def _entry(tag, unchanged, st, val):
         out += [7, 1 if val[1] else 0]
         enc(val[0], out)
         exc = '%s: %s' % (val[0], val[2])
+        if val[1] and val[3]:
+            exc = '@%s:%s@ ' % (val[3], val[0]) + exc
     return [tag, bool(unchanged), out, exc]
 
 
@@ -1068,6 +1193,12 @@ class C20:
         for fn in names:
             for rep in range(hug_dec if is_decision(fn) else hug_other):
                 add(fn, 'chordhug', family='chordhug')
+        # 2b. call forms with many option combinations: every combination (up to 16) 3 / 8 times, on the families that stress decisions
+        for fn in names:
+            nc = len(combo_list(fn))
+            if nc >= 6:
+                for rep in range(min(nc, 16) * (3 if Q else 8)):
+                    add(fn, 'combinations', family=rng.choice(['chordhug', 'chordhug', 'bumps', 'bumps', 'grid', 'plateau']), n=rng.randint(7, 14))
         # 3. falsy / boundary values of every numeric parameter the call form reads (0, 0.0, 1, empty list; empty knee set)
         for rep in range(3 if Q else 9):
             for fn in names:
@@ -1278,23 +1409,37 @@ class C20:
             return 'PYTHONPATH=%s python -c "import kneeliverse"  ->  %s' % (SRC, c.get('error'))
         bad = ''
         runs = c.get('runs') or []
+        excs = dict((t_, e_) for t_, e_ in (c.get('exc') or []))
         if runs:
             r0 = runs[0][2]
             for t, u, r in runs:
                 if not u:
                     bad = 'the call with the %s input MODIFIED an argument or a default-argument object' % TAGS[t]
                     break
-                if r != r0:
-                    bad = 'the result for the %s input differs from the result for the C-ordered float64 input' % TAGS[t]
+                if r[:2] == [7, 1]:
+                    bad = 'the call (%s) raised a linking-kind exception on a valid input: %s' % (TAGS[t], excs.get(t, '?'))
                     break
-        keys = sorted(k for k in c if k not in ('kind', 'fn', 'runs', 'family', 'intvals', 'raised'))
-        return 'kneeliverse.%s — %s; arguments built by harness/c20.py FUNCS[%r] from %s' % (c['fn'], bad or 'all re-presentations agree', c['fn'],
-                                                                                         {k: c[k] for k in keys if k in ('points', 'knees', 'reduced', 'k', 't', 'tlist', 'dist', 'order', 'cost')})
+                if r != r0:
+                    bad = 'the result for: %s — differs from the result of the base call (%s)' % (TAGS[t], 'the call alone in a forked child' if c.get('stream') == 'interference' else 'C-ordered float64 input')
+                    break
+        keys = sorted(k for k in c if k not in ('kind', 'fn', 'runs', 'family', 'intvals', 'raised', 'exc'))
+        return 'kneeliverse.%s [%s stream] — %s; arguments built by harness/c20.py FUNCS[%r] from %s' % (c['fn'], c.get('stream', 'general'), bad or 'all re-presentations agree', c['fn'],
+                                                                                         {k: c[k] for k in keys if k in ('points', 'knees', 'reduced', 'expected') or (k in used_keys(c['fn']) and (k in ENUMS or k in BOUNDARY or k in SIBLING_NUM))})
 
     def finding_key(self, c):
         if c['kind'] == 'link' and c.get('mirror'):
             return '%s.%s:%s' % (c['module'].split('.', 1)[-1], c['scope'], DIAG.get(c['mirror'], '?'))
+        if c['kind'] == 'dyn' and c.get('link_exc') and not self.other_failure(c):
+            for t_, e_ in c.get('exc') or []:
+                if e_.startswith('@'):
+                    return e_[1:].split('@', 1)[0]          # <module>.<function that raised>:<exception type>
         return None
+
+    @staticmethod
+    def other_failure(c):
+        """besides a linking-kind exception: an argument was modified or two runs differ"""
+        runs = c.get('runs') or []
+        return any((not u) or r != runs[0][2] for t, u, r in runs)
 
 
 def show_ref(r):
